@@ -2,7 +2,7 @@
 events on W simulated ranks (harness/simdist) or in a single process.
 
 history events (the same list on every rank, SPMD):
-  ['train', nmicro]          zero_grad, nmicro forward/backward passes in train mode,
+  ['train', nmicro(, nprobe)] zero_grad, (nprobe train-mode forward passes under no_grad, never back-propagated,) nmicro forward/backward passes in train mode,
                              DDP-style gradient averaging (world all_reduce), preconditioner.step()
   ['eval']                   forward/backward in eval mode (no step)
   ['state_dict', ranks|None] state_dict() on the listed ranks (None = all)
@@ -147,6 +147,14 @@ def rank_body(cfg, history, W, observe=None, single_union=False, pre_step=None, 
             if kind == 'train':
                 model.train()
                 model.zero_grad()
+                for pi in range(e[2] if len(e) > 2 else 0):
+                    # train-mode forward passes that are never followed by a backward pass (a probe under no_grad): the layer inputs
+                    # of these passes are accumulated into A, while G only sees the passes that are back-propagated
+                    with torch.no_grad():
+                        if single_union:
+                            model(torch.cat([batch(cfg, ev, 1000 + pi, r, dtype) for r in range(cfg['union_of'])], 0))
+                        else:
+                            model(batch(cfg, ev, 1000 + pi, rank, dtype))
                 for mi in range(e[1]):
                     one_pass(ev, mi)
                 if scale != 1.0:
